@@ -823,6 +823,25 @@ def req_C09(r, tier):
                         ("S|bit253", S | (1 << 253)), ("S=2^253-1", (1 << 253) - 1), ("S+15l", S + 15 * L)):
             if S2 < (1 << 256):
                 out += V(lab, pk, m, Rb + tole(S2))
+        # canonical-S enforcement with the group equation HOLDING (so that only the S < l rule decides):
+        # (a) key = identity: (R = [S mod l]B, S) satisfies the equation for EVERY S and message; sweep S over the boundary region
+        idk = compress(ZERO)
+        sweep = [L - 1, L, L + 1, L + (1 << 100), (1 << 252) + (1 << 247), (1 << 252) + (1 << 248) - 1, (1 << 252) + (1 << 248), 2 * L - 1, 2 * L,
+                 (1 << 253) - 1, (1 << 253), 8 * L, 15 * L, (1 << 255) - 1, (1 << 255) + 5, (1 << 256) - 1, 0, 1, r.below(L)]
+        sweep += [v for lab_, v in sc_pool(r, 0) if lab_.startswith("prefix_")][:: (1 if tier != QUICK else 4)]
+        for S2 in sweep:
+            if S2 < (1 << 256):
+                lab = "idkey_S<l" if S2 < L else ("idkey_S>=l_top%02x" % (S2 >> 248))
+                out += V(lab, idk, m, compress(smul(S2 % L, B)) + tole(S2))
+        # (b) full-order key: our own nonce r0 (verification cannot tell), ground until s is small, then s + l has the top byte of l
+        for tries in range(64):
+            r0 = r.below(L)
+            Rg = compress(smul(r0, B))
+            sg = (r0 + ed_challenge(Rg, pk, m, ctx) * a) % L
+            if sg < (1 << 248) - (1 << 126):
+                out += V("forged_small_s", pk, m, Rg + tole(sg))
+                out += V("forged_small_s+l", pk, m, Rg + tole(sg + L))
+                break
         # corrupt each field
         for lab, pos in (("flipR", r.below(32)), ("flipS", 32 + r.below(32))):
             b = bytearray(sig); b[pos] ^= 1 << r.below(8)
